@@ -86,10 +86,25 @@ def setup(tier):
             mon.event("monitor_error", where="crosscov", err=repr(e))
         return True
 
+    if not _xcov_hookable():
+        # the inner function this advisory monitor wraps does not exist in the tree under test (refactored away):
+        # the reference-model oracle below still decides, the monitor is reported as absent
+        mon._count("hook_target_absent:CPCCA._compute_cross_covariance_numpy")
+        mon._installed.add("c09_xcov")
+        return
     orig = M.CPCCA.__dict__["_compute_cross_covariance_numpy"]
     orig = orig.__func__ if isinstance(orig, staticmethod) else orig
     M.CPCCA._compute_cross_covariance_numpy = staticmethod(icontract.ensure(crosscov_post, error=mon.PostBroken)(orig))
     mon._installed.add("c09_xcov")
+
+
+def _xcov_hookable():
+    try:
+        from xeofs.cross import cpcca as M
+
+        return "_compute_cross_covariance_numpy" in M.CPCCA.__dict__
+    except Exception:  # noqa: BLE001
+        return True
 
 
 def required(tier):
@@ -98,7 +113,7 @@ def required(tier):
     cover += ["data:generic", "data:rho1", "data:same", "shape:wide", "modes:full_rank", "modes:one", "cplx:True"]
     cover += ["alpha:11", "alpha:00", "alpha:01", "alpha:10", "alpha:interior", "flag:standardize", "flag:coslat", "flag:weights"]
     cover += ["checked:mca_scf_sum", "checked:cca_canonical", "checked:patterns"]
-    return {"mon": ["post:Decomposer.fit", XCOV], "cover": cover}
+    return {"mon": ["post:Decomposer.fit", "history:prior_fit"] + ([XCOV] if _xcov_hookable() else []), "cover": cover}
 
 
 # --------------------------------------------------------------------------- cases
@@ -350,10 +365,27 @@ def run_case(case, obs):
     kw = R.model_kwargs(case, k)
     if "random_state" in case:
         kw["random_state"] = case["random_state"]
-    mon.reset()
     model = getattr(xe.cross, cls)(**kw)
+    aged = int(case["dseed"]) % 3 == 0
+    obs.cell("history:" + ("aged" if aged else "fresh"))
+    obs.tag(history="aged" if aged else "fresh")
     with warnings.catch_warnings():
         warnings.simplefilter("ignore")
+        if aged:
+            # hostile history: the same object was fitted on other data of the same structure and EVERY accessor
+            # (patterns, fractions, correlation coefficients) was used before the fit that is judged
+            from xv import zoo
+
+            try:
+                oth = [zoo.perturbed(d) for d in b["da"]]
+                model.fit(oth[0], oth[1], dim="time", weights_X=b["W"][0], weights_Y=b["W"][1])
+                model.scores(), model.components()
+                zoo.call_all_accessors(model)
+                obs.count("history:prior_fit")
+            except Exception:  # noqa: BLE001  (the perturbed data may be unusable on its own account)
+                model = getattr(xe.cross, cls)(**kw)
+                obs.count("history:prior_fit_raised")
+        mon.reset()
         model.fit(b["da"][0], b["da"][1], dim="time", weights_X=b["W"][0], weights_Y=b["W"][1])
     mon.drain(obs)
 
